@@ -479,3 +479,60 @@ for _p in _properties():
     rule(_p["id"], "G4", "K6", "a constructor stores its parameter, not a constant, under the parameter's name",
          clause="`def __init__(self, p=1.0): self.p = 1.0` with p never read: the object ignores what it was constructed with. Decides the "
                 "binding only.")(_make_g4(_p["id"]))
+
+
+# ---------------------------------------------------------------------------------------------------------------------------
+#  G5  every attribute a concrete class reads through self is bound somewhere in that class's hierarchy
+#      (common.unbound_attribute_reads: methods reachable from the public ones, resolved along the MRO, following self.m() and
+#      explicit Base.m(self) calls; bound = class bodies and any `self.a = ...` of the MRO, `obj.a = ...` anywhere, what a strict
+#      subclass binds, names probed with hasattr/getattr).  The matcher, column and writer hierarchies have had this rule as
+#      C11-R9 / C08-R8 / C18-R6; G5 runs it for every other class of the property's anchor files.
+
+UNBOUND_OK = {
+    ("qparser.plugins.FieldsPlugin", "nodetype"):
+        "TaggingPlugin.create() is only reached through RegexTagger.match() of the plugin itself; FieldsPlugin.taggers() returns its own "
+        "FieldnameTagger and never registers the plugin as a tagger",
+}
+_G5_COVERED_ELSEWHERE = ("matching.mcore.Matcher", "columns.Column", "columns.ColumnWriter", "columns.ColumnReader", "writing.IndexWriter")
+
+
+def _make_g5(pid):
+    def g5(ctx):
+        prog = ctx.prog
+        files = None
+        for p in _properties():
+            if p["id"] == pid:
+                files = set(p["anchors"]["files"])
+        covered = set()
+        for b in _G5_COVERED_ELSEWHERE:
+            try:
+                covered.update(k.qualname for k in prog.subclasses(prog.cls(b)))
+            except Exception:
+                raise AnalysisError("G5: hierarchy root %s vanished" % b)
+        built = common.constructed_names(prog)
+        n = 0
+        for K in sorted(prog.classes.values(), key=lambda k: k.qualname):
+            if K.module.relpath not in files or K.qualname in covered:
+                continue
+            if not (K.name in built or not prog.subclasses(K, strict=True)):
+                continue
+            n += 1
+            bad = [(a, f, line, entry) for a, f, line, entry in common.unbound_attribute_reads(prog, K) if (K.short, a) not in UNBOUND_OK]
+            by_attr = {}
+            for a, f, line, entry in bad:
+                by_attr.setdefault(a, []).append(f)
+            ctx.ob(K, not bad, "every attribute %s reads through self is bound in its hierarchy" % K.name,
+                   detail="; ".join("self.%s (read by %s)" % (a, ", ".join(sorted(set(f.short for f in fs)))) for a, fs in sorted(by_attr.items())) +
+                          (": nothing binds it -- AttributeError when the method runs" if bad else ""), loc=K.loc)
+        if n < 3:
+            raise AnalysisError("%s-G5: only %d concrete classes in the anchor files" % (pid, n))
+    return g5
+
+
+for _p in _properties():
+    rule(_p["id"], "G5", "K10", "every attribute a concrete class reads through self is bound in its hierarchy",
+         clause="Per concrete class (constructed somewhere, or without subclasses) of the anchor files: a `self.a` read in a method reachable "
+                "from the public methods, resolved along the class's own MRO, names an attribute that some class body or method of that MRO "
+                "binds (or a subclass, or an `obj.a = ...` anywhere). A setting that sibling classes define and one class lacks "
+                "(DisjunctionMax.intersect_merge) only fails on the path that reads it. Reviewed exceptions: generic.UNBOUND_OK; the matcher, "
+                "column and writer hierarchies are judged by C11-R9 / C08-R8 / C18-R6.")(_make_g5(_p["id"]))
